@@ -350,6 +350,31 @@ impl<'a> Iterator for UnitSearchDirsIterator<'a> {
     }
 }
 
+/// verification hook: the real directory walk with one of the real filters, on caller-chosen paths
+#[cfg(quadlet_rs_verif)]
+pub(crate) fn verif_walk(
+    root: PathBuf,
+    resolved_unit_dir_admin_user: PathBuf,
+    rootless: bool,
+    filter: &str,
+) -> Vec<PathBuf> {
+    let builder = UnitSearchDirsBuilder {
+        dirs: None,
+        recursive: true,
+        rootless,
+    };
+    let level = resolved_unit_dir_admin_user.components().count();
+    let filter_fn: Option<FilterFn> = match filter {
+        "user" => Some(get_user_level_filter_func(resolved_unit_dir_admin_user)),
+        "nonnumeric" => Some(get_non_numeric_filter_func(
+            resolved_unit_dir_admin_user,
+            level,
+        )),
+        _ => None,
+    };
+    builder.subdirs_for_search_dir(root, filter_fn.as_ref())
+}
+
 #[cfg(test)]
 mod tests {
     use super::*;
